@@ -43,6 +43,23 @@ def make(kind):
             self.st += 1
     class InheritsCall(CallableThing):      # callable only through the __call__ of its base class
         pass
+    class Slotted:                          # __slots__ and no __getstate__: not picklable below protocol 2
+        __slots__ = ("st",)
+
+        def __init__(self, st=0):
+            self.st = st
+
+        def bump(self):
+            self.st += 1
+
+    class Buffered(Thing):                  # holds a PickleBuffer: serialisable in-band at protocol 5 only
+        def __init__(self, st=0):
+            Thing.__init__(self, st)
+            self.buf = pickle.PickleBuffer(bytearray(b"payload"))
+    if kind == "sinst":
+        return Slotted(0)
+    if kind == "bufinst":
+        return Buffered(0)
     if kind == "icinst":
         return InheritsCall(0)
     if kind == "icls":
@@ -58,7 +75,7 @@ def make(kind):
     raise AssertionError(kind)
 
 
-STATEFUL = {"closure", "cinst", "inst", "ccls_inst", "cls_inst", "icinst", "icls_inst"}
+STATEFUL = {"closure", "cinst", "inst", "ccls_inst", "cls_inst", "icinst", "icls_inst", "sinst", "bufinst"}
 
 
 def project(h, kind):
@@ -101,7 +118,7 @@ def run(case):
             elif op[0] == "roundtrip":
                 src = orig if op[1] == "orig" else copy
                 ck = okind if op[1] == "orig" else ckind
-                copy = pickle.loads(pickle.dumps(src))
+                copy = pickle.loads(pickle.dumps(src, protocol=op[2]))
                 ckind = ck
             elif op[0] == "call":
                 (orig if op[1] == "orig" else copy)(op[2])
